@@ -53,7 +53,7 @@ prop("C11",
 
 
 prop("C03",
-     units=["queue", "arms"],
+     units=["queue", "arms", "record"],
      scans=["history-writers"],
      level="proof",
      claim="protocol part: the queue holds exactly the (tag, list) pairs in the order the sender applied them; flush returns enc(queue) and empties it; "
@@ -86,7 +86,7 @@ prop("C14",
      assumptions=DISP_ASSUME,
      residual="cell contents via text re-entry; row/column descriptor sizes and styles (insert/delete fragments not yet under contract)")
 prop("C15",
-     units=["refshift", "refarms", "strenv", "dispsites"],
+     units=["refshift", "refarms", "strenv", "dispsites", "movecols"],
      level="proof",
      claim="RowMove/ColumnMove arms of the reference rewriter, CF corner maps and link-key maps all equal move1, which has an inverse (lemma_move1_inverse): a single move is a permutation of the axis and references follow their cells",
      assumptions=DISP_ASSUME,
